@@ -4,7 +4,7 @@ tiling, axis sums) that the scalar representative-cell abstraction cannot see.  
 
 from __future__ import annotations
 
-from .alg import Poly, Undecided, fn, to_poly
+from .alg import Obj, Poly, Undecided, fn, to_poly
 
 
 def _shape(x):
@@ -54,6 +54,8 @@ def _add(a, b):
 
 
 def _sum_axis(x, axis):
+    if axis is not None and axis < 0:
+        axis += len(_shape(x))
     if axis is None:
         tot = Poly()
         for v in _flatten(x):
@@ -137,10 +139,152 @@ def _reshape(x, shape):
 
 
 def _concat(parts, axis):
+    if axis is not None and axis < 0:
+        axis += len(_shape(parts[0]))
     if axis in (None, 0):
         return [v for part in parts for v in (part if isinstance(part, (list, tuple)) else [part])]
     n = len(parts[0])
     return [_concat([p_[i] for p_ in parts], axis - 1) for i in range(n)]
+
+
+def _transpose_first_last(x, to_front):
+    """'...j->j...' (to_front) / 'j...->...j' on a nested list: move the last axis first / the first axis last."""
+    sh = _shape(x)
+    if len(sh) <= 1:
+        return x
+    if to_front:
+        # result[j][...] = x[...][j]
+        def pick(y, j, depth):
+            if depth == len(sh) - 1:
+                return y[j]
+            return [pick(z, j, depth + 1) for z in y]
+        return [pick(x, j, 0) for j in range(sh[-1])]
+    # result[...][j] = x[j][...]
+    def build(prefix_items):
+        # prefix_items: list over j of the sub-arrays x[j] restricted so far
+        if not isinstance(prefix_items[0], (list, tuple)):
+            return list(prefix_items)
+        n = len(prefix_items[0])
+        return [build([p_[i] for p_ in prefix_items]) for i in range(n)]
+    return build(list(x))
+
+
+def _einsum(a, k):
+    spec = a[0]
+    if not isinstance(spec, str):
+        raise Undecided("einsum subscripts are not a literal")
+    spec = spec.replace(" ", "")
+    ops = a[1:]
+    if len(ops) == 1:
+        x = ops[0]
+        if spec == "...j->j...":
+            return _transpose_first_last(x, True)
+        if spec == "j...->...j":
+            return _transpose_first_last(x, False)
+        lhs, _, rhs = spec.partition("->")
+        if len(lhs) == 2 and rhs == lhs[::-1]:
+            return _transpose_first_last(x, True)
+        if lhs == rhs:
+            return x
+    return _einsum_general(spec, ops)
+
+
+def _einsum_general(spec, ops):
+    """Explicit-mode einsum over nested lists (no ellipsis): out[o] = sum over the other letters of prod_k op_k[letters_k]."""
+    import itertools
+    if "..." in spec or "->" not in spec:
+        raise Undecided(f"einsum {spec!r} on list tensors")
+    lhs, rhs = spec.split("->")
+    terms = lhs.split(",")
+    if len(terms) != len(ops):
+        raise Undecided("einsum operand count")
+    size = {}
+    for t, op in zip(terms, ops):
+        sh = _shape(op)
+        if len(sh) != len(t):
+            raise Undecided(f"einsum operand rank {len(sh)} does not match subscripts {t!r}")
+        for ch, n in zip(t, sh):
+            if size.setdefault(ch, n) != n:
+                if size[ch] == 1:
+                    size[ch] = n
+                elif n != 1:
+                    raise Undecided(f"einsum size mismatch on {ch}")
+    summed = [ch for ch in size if ch not in rhs]
+
+    def at_(op, t, assign):
+        x = op
+        for ch in t:
+            x = x[assign[ch] if len(x) > 1 else 0]
+        return x
+
+    def build(d, assign):
+        if d == len(rhs):
+            tot = Poly()
+            for combo in itertools.product(*[range(size[ch]) for ch in summed]):
+                a2 = dict(assign)
+                a2.update(zip(summed, combo))
+                prod = Poly.const(1)
+                for t, op in zip(terms, ops):
+                    prod = prod * to_poly(at_(op, t, a2))
+                tot = tot + prod
+            return tot
+        ch = rhs[d]
+        return [build(d + 1, {**assign, ch: i}) for i in range(size[ch])]
+
+    return build(0, {})
+
+
+def _where(cond, a, b):
+    def pick(c_, x, y):
+        if not isinstance(c_, bool):
+            raise Undecided("where() on a symbolic condition")
+        return x if c_ else y
+
+    def z3(c_, x, y):
+        if isinstance(c_, (list, tuple)):
+            n = len(c_)
+            xs = x if isinstance(x, (list, tuple)) else [x] * n
+            ys = y if isinstance(y, (list, tuple)) else [y] * n
+            if len(xs) == 1 and n > 1:
+                xs = list(xs) * n
+            if len(ys) == 1 and n > 1:
+                ys = list(ys) * n
+            if len(xs) != n or len(ys) != n:
+                raise Undecided("where() shape mismatch")
+            return [z3(ci, xi, yi) for ci, xi, yi in zip(c_, xs, ys)]
+        if isinstance(x, (list, tuple)) or isinstance(y, (list, tuple)):
+            n = len(x) if isinstance(x, (list, tuple)) else len(y)
+            xs = x if isinstance(x, (list, tuple)) else [x] * n
+            ys = y if isinstance(y, (list, tuple)) else [y] * n
+            return [z3(c_, xi, yi) for xi, yi in zip(xs, ys)]
+        return pick(c_, x, y)
+
+    return z3(cond, a, b)
+
+
+def _gather(data, idx):
+    if isinstance(idx, (list, tuple)):
+        return [_gather(data, i) for i in idx]
+    return data[_int(idx)]
+
+
+def _argsort(recv):
+    vals = []
+    for v in recv:
+        p = to_poly(v)
+        if not p.is_const():
+            raise Undecided("argsort of symbolic values")
+        vals.append(p.const_value())
+    return [Poly.const(i) for i in sorted(range(len(vals)), key=lambda i: (vals[i], i))]
+
+
+def _product(x, axis=None):
+    if axis is not None:
+        raise Undecided("product with an axis on list tensors")
+    tot = Poly.const(1)
+    for v in _flatten(x):
+        tot = tot * to_poly(v)
+    return tot
 
 
 def _axis(k, a, pos=1):
@@ -169,6 +313,13 @@ def externals(interp_truth=None):
         "ones": lambda a, k: _full(a[0], Poly.const(1)),
         "tile": lambda a, k: _tile(a[0], [_int(r) for r in a[1]] if isinstance(a[1], (list, tuple)) else [_int(a[1])]),
         "shape": lambda a, k: tuple(Poly.const(d) for d in _shape(a[0])),
+        "stack": lambda a, k: [_copy(x) for x in a[0]],
+        "einsum": _einsum,
+        "where": lambda a, k: _where(a[0], a[1], a[2]),
+        "gather": lambda a, k: _gather(a[0], a[1]),
+        "product": lambda a, k: _product(a[0], _axis(k, a)),
+        "slice": lambda a, k: Obj("slice", {"start": a[0] if len(a) > 1 else Poly(), "stop": a[1] if len(a) > 1 else a[0]}),
+        ".argsort": lambda recv, a, k: _argsort(recv),
         ".any": lambda recv, a, k: any(truth(v) for v in _flatten(recv)),
         ".all": lambda recv, a, k: all(truth(v) for v in _flatten(recv)),
     }
